@@ -8,6 +8,7 @@ import (
 	"time"
 
 	"verif/harness/model"
+	"verif/harness/resp"
 	"verif/harness/verdict"
 )
 
@@ -381,12 +382,15 @@ func checkC07(r *verdict.Run) {
 	r.Rule = "(1) lifetime-phase matrix: every command template (the canonical invocations plus 55 size-changing in-place modifications and replacing forms whose target is among their operands) x key type x {deadline 100 s ahead, deadline passed but object still stored (PEXPIREAT 1 / EXPIRE -1 / EXPIREAT 1), operand keys expired}: an expired key must behave as missing for every command, TTL preserved/cleared per command; " +
 		"(2) EXPIRE/PEXPIRE/EXPIREAT/PEXPIREAT x {none,NX,XX,GT,LT} x {no deadline, later, earlier} x {positive, zero, negative} and TTL/PTTL/EXPIRETIME/PEXPIRETIME/PERSIST/GETEX/SET option sequences; " +
 		"(2b) every deadline-setting form (EXPIRE family, SET/GETEX EX/PX/EXAT/PXAT, SETEX, PSETEX) with extreme values around 292 years, year 9999, 2^53 ms and the int64 limits, positive and negative: stored or refused as Redis does, never a vanished or persistent key; " +
+		"(2c) commands queued in MULTI while the key is alive and executed by EXEC after its deadline, and blocking moves served after their destination expired while they waited: deadlines are judged when a command executes; " +
 		"(3) transition batches: keys of 4 types with 120-400 ms TTLs read by rotating commands across the deadline. All against the reference model with an interval clock: an observation is judged only when its [send, receive] interval lies entirely before or after the deadline interval (no wall-clock tolerance constants). " +
 		"distinct = matrix cells + (command, flag, state) tuples + transition reads"
 	c07PhaseMatrix(r)
 	c07ExpireSemantics(r)
 	c07ExtremeTimes(r)
 	c07Transition(r, tierPick(r, 16, 200))
+	c07QueuedAcrossDeadline(r, tierPick(r, 16, 160))
+	c07BlockedAcrossDeadline(r)
 	runDiffSequences(r, tierPick(r, 100, 3000), func(rng *rand.Rand) int { return 40 + rng.Intn(40) },
 		[]string{"e0", "e1", "e2", "e3"}, [][]string{{"SET", "e0", "v", "EX", "100"}, {"RPUSH", "e1", "a"}}, c07Gen)
 	r.Assume("client and server share one machine clock (same host); an observation whose interval overlaps a deadline interval is skipped (counted as ambiguous_time_*), never judged")
@@ -473,4 +477,153 @@ func c07ExtremeTimes(r *verdict.Run) {
 		}
 		d.close()
 	}
+}
+
+// c07QueuedAcrossDeadline: commands are queued in MULTI while the key is alive and executed by EXEC after its
+// deadline has passed (and the other way round: queued on a missing key, executed after it was given a deadline that
+// is still ahead). Whatever moment a command object was created, the deadline is judged when the command executes.
+func c07QueuedAcrossDeadline(r *verdict.Run, batches int) {
+	perType := map[string][][]string{
+		"string": {{"GET", "K"}, {"APPEND", "K", "x"}, {"STRLEN", "K"}, {"INCR", "K"}, {"SETNX", "K", "n"}, {"SET", "K", "n", "XX"}, {"GETRANGE", "K", "0", "-1"}, {"SETRANGE", "K", "1", "z"}, {"BITCOUNT", "K"}, {"SETBIT", "K", "3", "1"}},
+		"list":   {{"LLEN", "K"}, {"RPUSHX", "K", "x"}, {"LPUSH", "K", "y"}, {"LRANGE", "K", "0", "-1"}, {"LPOP", "K"}, {"LINSERT", "K", "BEFORE", "a", "i"}, {"LMOVE", "K", "dst", "LEFT", "RIGHT"}, {"LMOVE", "src", "K", "LEFT", "RIGHT"}},
+		"hash":   {{"HLEN", "K"}, {"HGETALL", "K"}, {"HSETNX", "K", "f", "z"}, {"HINCRBY", "K", "n", "1"}, {"HSET", "K", "g", "2"}, {"HDEL", "K", "f"}},
+		"set":    {{"SCARD", "K"}, {"SMEMBERS", "K"}, {"SADD", "K", "z"}, {"SMOVE", "K", "dst", "a"}, {"SINTERSTORE", "dst", "K", "K"}, {"SUNION", "K", "other"}},
+	}
+	common := [][]string{{"EXISTS", "K"}, {"TYPE", "K"}, {"TTL", "K"}, {"PTTL", "K"}, {"DBSIZE"}, {"KEYS", "*"}, {"RENAMENX", "other", "K"}, {"COPY", "K", "cp"}, {"PERSIST", "K"}, {"EXPIRE", "K", "100", "XX"}, {"DEL", "K"}, {"RANDOMKEY"}, {"SCAN", "0"}}
+	typs := []string{"string", "list", "hash", "set"}
+	parallel(batches, 16, func(b int) {
+		rng := shardRng(r, 6000+b)
+		c, err := startChild(false)
+		if err != nil {
+			r.Inconclusive("cannot start child")
+			return
+		}
+		defer c.Stop()
+		typ := typs[b%4]
+		d, err := newDiffEnv(r, c, []string{"tk", "other", "dst", "src", "cp"})
+		if err != nil {
+			r.Inconclusive("infra: " + err.Error())
+			return
+		}
+		defer d.close()
+		d.monitor = "queued-across-deadline"
+		ok := true
+		step := func(a ...string) {
+			if ok {
+				_, ok = d.step(a)
+			}
+		}
+		step("SET", "other", "o")
+		step("RPUSH", "src", "s1", "s2")
+		for _, s := range c06TypeSetup(typ) {
+			step(s...)
+		}
+		ms := 150 + rng.Intn(100)
+		step("PEXPIRE", "tk", strconv.Itoa(ms))
+		step("MULTI")
+		pool := append(append([][]string{}, perType[typ]...), common...)
+		n := 4 + rng.Intn(5)
+		for i := 0; i < n; i++ {
+			t := pool[rng.Intn(len(pool))]
+			args := make([]string, len(t))
+			for j, a := range t {
+				if a == "K" {
+					a = "tk"
+				}
+				args[j] = a
+			}
+			step(args...)
+		}
+		time.Sleep(time.Duration(ms+150) * time.Millisecond)
+		step("EXEC")
+		step("EXISTS", "tk")
+		step("PTTL", "tk")
+		r.Eval(n)
+		r.Distinct(fmt.Sprintf("queued-across-deadline/%s/%d-commands", typ, n))
+	})
+}
+
+// c07BlockedAcrossDeadline: a blocking command starts while a key it will touch is alive and is served after that
+// key's deadline has passed: the destination of BLMOVE/BRPOPLPUSH must then be a fresh list (no old elements, no
+// deadline), and a source that expired while the command waited must not be popped.
+func c07BlockedAcrossDeadline(r *verdict.Run) {
+	c, err := startChild(false)
+	if err != nil {
+		r.Inconclusive("cannot start child")
+		return
+	}
+	defer c.Stop()
+	forms := [][]string{{"BLMOVE", "bsrc", "bdst", "LEFT", "RIGHT", "5"}, {"BRPOPLPUSH", "bsrc", "bdst", "5"}}
+	for i, f := range forms {
+		e, err := startEmu(c, "")
+		if err != nil {
+			r.Inconclusive("infra: " + err.Error())
+			return
+		}
+		aux, _ := e.dial()
+		blk, _ := e.dial()
+		blk.Timeout = 8 * time.Second
+		aux.Do("RPUSH", "bdst", "old1", "old2")
+		aux.Do("PEXPIRE", "bdst", "150")
+		done := make(chan resp.Value, 1)
+		go func() {
+			v, _ := blk.Do(f...)
+			done <- v
+		}()
+		time.Sleep(400 * time.Millisecond) // the destination's deadline passes while the command waits
+		aux.Do("RPUSH", "bsrc", "el-new")
+		var v resp.Value
+		select {
+		case v = <-done:
+		case <-time.After(6 * time.Second):
+			r.Report("blocked-across-deadline/not-served/"+f[0], fmt.Sprintf("%s was not served by a push after its destination had expired", cmdString(f)), nil)
+			e.close()
+			continue
+		}
+		lr, _ := aux.Do("LRANGE", "bdst", "0", "-1")
+		ttl, _ := aux.Do("PTTL", "bdst")
+		r.Eval(1)
+		var got []string
+		for _, el := range lr.Elems {
+			got = append(got, el.Text())
+		}
+		if v.Text() != "el-new" || len(got) != 1 || got[0] != "el-new" || ttl.Int != -1 {
+			r.Report("blocked-across-deadline/destination-expired-while-waiting/"+f[0], fmt.Sprintf("%s waited 400 ms; its destination (two old elements, PEXPIRE 150) expired meanwhile; then RPUSH bsrc el-new: reply %s, LRANGE bdst = %v, PTTL bdst = %s (expected el-new, [el-new], -1)", cmdString(f), v, got, ttl), nil)
+		}
+		r.Distinct(fmt.Sprintf("blocked-across-deadline/%d", i))
+		aux.Close()
+		blk.Close()
+		e.close()
+	}
+	// the key a client blocks on exists (as another type would block it? no: as a list it would be popped at once), so
+	// the waiting key is one that EXPIRES while other clients wait on it and is then pushed again
+	e, err := startEmu(c, "")
+	if err != nil {
+		return
+	}
+	defer e.close()
+	aux, _ := e.dial()
+	defer aux.Close()
+	blk, _ := e.dial()
+	defer blk.Close()
+	blk.Timeout = 8 * time.Second
+	aux.Do("SET", "bq", "a-string-in-the-way", "PX", "150")
+	done := make(chan resp.Value, 1)
+	go func() {
+		time.Sleep(300 * time.Millisecond) // the string has expired: the name is free, BLPOP must wait for a push
+		v, _ := blk.Do("BLPOP", "bq", "5")
+		done <- v
+	}()
+	time.Sleep(500 * time.Millisecond)
+	pv, _ := aux.Do("RPUSH", "bq", "el-1")
+	select {
+	case v := <-done:
+		r.Eval(1)
+		if len(elements(model.Down(v))) != 1 || pv.IsError() {
+			r.Report("blocked-across-deadline/expired-string-in-the-way", fmt.Sprintf("SET bq s PX 150; (300 ms later) BLPOP bq 5; RPUSH bq el-1 -> %s; BLPOP -> %s", pv, v), nil)
+		}
+	case <-time.After(6 * time.Second):
+		r.Report("blocked-across-deadline/expired-string-in-the-way", "BLPOP on a name whose string value had expired was not served by a later push", nil)
+	}
+	r.Distinct("blocked-across-deadline/expired-string")
 }
